@@ -584,6 +584,35 @@ def pyval(m, v, seq_cap=12):
     return str(r)
 
 
+# ---------------------------------------------------------------------------------------------------------------------------------------
+# `term.eq(other)` in harnesses means "the same value on this path", not "the same syntax tree": two terms that the path condition (incl. the
+# ground axioms that come with the terms: commutativity of + and *, casts to the value's own dtype, ...) forces to be equal ARE equal. Structural
+# identity is tried first; otherwise the path's solver decides (2 s; undecided counts as "not shown equal", as the purely syntactic test did).
+CURRENT_CTX = [None]
+_STRUCT_EQ = z3.AstRef.eq
+
+
+def _semantic_eq(self, other):
+    if _STRUCT_EQ(self, other):
+        return True
+    ctx = CURRENT_CTX[0]
+    if ctx is None or not isinstance(other, z3.ExprRef):
+        return False
+    try:
+        if self.sort() != other.sort():
+            return False
+        s = z3.Solver()
+        s.set("timeout", 2000)
+        s.add(*ctx.pc)
+        s.add(self != other)
+        return s.check() == z3.unsat
+    except z3.Z3Exception:
+        return False
+
+
+z3.ExprRef.eq = _semantic_eq
+
+
 class Ctx:
     """Per-path state."""
 
